@@ -597,7 +597,7 @@ def finish_kwargs(ctx: core.Ctx, tier: str) -> dict:
     return {
         "rule": (
             f"(a) every op sequence of length <= {maxlen} over 20 ops (set/get/[]/del/in x 3 keys, len, "
-            "keys, values, items, iter), capacities 1-4, LRUCache and ThreadSafeLRUCache, compared step by "
+            "keys, values, items, iter; stored values include None), capacities 1-4, LRUCache and ThreadSafeLRUCache, compared step by "
             "step with a list model; non-trivial = an eviction whose victim differs from the oldest-inserted "
             "key (recency was changed by a lookup or re-insert). (b) random histories of 5-60 ops over 8 keys. "
             "(c) owned schedules on ThreadSafeLRUCache: a listing is begun, other ops run, the listing is "
@@ -605,7 +605,8 @@ def finish_kwargs(ctx: core.Ctx, tier: str) -> dict:
             "thread's set/del/get is run at the 1st/2nd/3rd release of the cache's lock inside one listing call, and "
             "the listing must equal the contents before or after it (exhaustive over 5 pre-states x 4 listings x 10 "
             "injected ops x capacities 1-3). (d) 2-16 real threads with "
-            "switch interval 1e-6; any exception, over-capacity or invented pair fails."
+            "switch interval 1e-6; any exception, over-capacity or invented pair fails. The cache's "
+            "lock is replaced by one that raises when its holder takes it again (a self-deadlock is a failure, not a hang)."
         ),
         "exhaustive": True,
         "assumptions": [
